@@ -16,7 +16,8 @@ policy for the points POSIX and the manual leave open (Alts).
  2. spec -> impl: TLC (Gen_XTrace) enumerates scenarios of eight families, checks the laws of the model on
     each (re-reading of traced fields through Quote!Read, transparency of tracing, verbose echoes every
     line once, noexec executes nothing, the matcher accepts the canonical text) and prints script + allowed
-    outcomes; harness/g10 runs every script on the real shell (simulated OS) and demands that what it
+    outcomes; harness/g10 runs every script on the real shell (simulated OS) as its standard input and
+    (unless verbose may come on or the shell is interactive) as a -c string and demands that what it
     observes is one of the outcomes.
  3. impl -> spec: seeded random scenarios (deeper nesting, more redirections, function bodies, dot scripts)
     are rendered, run and recorded by the harness; TLC (Trace_XTrace) re-renders the script, evaluates
@@ -33,7 +34,7 @@ PKG = "yv-g10"
 
 TIERS = {
     "quick": dict(gen="Gen_XTrace_quick.cfg", nrandom=1200, timeout=600),
-    "thorough": dict(gen="Gen_XTrace_thorough.cfg", nrandom=12000, timeout=2400),
+    "thorough": dict(gen="Gen_XTrace_thorough.cfg", nrandom=30000, timeout=2400),
 }
 
 # wrong variant -> a family in which the enumeration refutes it
@@ -213,7 +214,8 @@ def run(tier):
         "redirections without a command name, PS4 with side effects in a redirection-only command, a temporary "
         "variable reassigned during the command, diagnostics written to a redirected descriptor 2, a pipe writer "
         "without reader, `! set -n`, errors in interactive shells, one file opened twice",
-        "verbose for -c strings is not covered (the manual documents the echo for input read through a descriptor); "
+        "verbose for -c strings is not covered (the echo is documented for input read through a descriptor): scenarios "
+        "in which verbose may come on run as standard input only, all others also as a -c string; "
         "interactive runs compare standard output and exit status only (prompts are not modelled)",
         "traces of the stages of one pipeline are compared up to interleaving; everything else in order",
         "TLC and the JSON community module are trusted",
